@@ -1,5 +1,5 @@
 (* Proofs about Model/AutoXact.v (automated transactions).  Used by Properties_C16.v. *)
-From LedgerV Require Import Base.Prelude Base.Round Gen.AutoXactRoot Model.Amount Model.Xact Model.AutoXact
+From LedgerV Require Import Base.Prelude Base.Round Gen.AutoXactRoot Gen.PostPred Model.Amount Model.Xact Model.AutoXact
   Proofs.AmountProofs Proofs.RoundProofs Proofs.XactProofs.
 From Coq Require Import Qabs Lqa Setoid.
 Local Open Scope Q_scope.
@@ -7,31 +7,115 @@ Local Opaque Qred.
 
 (* ------------------------------------------------------------ the quick matcher and its memo *)
 
-(* post_pred, when it does not throw, returns what the full predicate returns *)
+(* the next two lemmas hold whatever cases the source has: pp_ok is not looked into *)
+Local Opaque pp_ok.
+
+(* post_pred, when it does not throw, returns what the full predicate returns (whatever the source's
+   set of cases is: a case that is not there only makes the quick matcher decline) *)
 Lemma quick_eval_sound payee p : forall e b, quick_eval p e = Some b -> pred_eval payee p e = Ok b.
 Proof.
-  induction e as [s | s | a | a | q IH | q IHq r IHr | q IHq r IHr]; intros b; cbn [quick_eval pred_eval];
-    try discriminate.
-  - intros [= <-]. reflexivity.
-  - destruct (quick_eval p q) as [bq|]; [|discriminate]. intros [= <-].
+  induction e as [s | s | a | a | q IH | q IHq r IHr | q IHq r IHr | c | q IHq r IHr | c IHc q IHq r IHr];
+    intros b; cbn [quick_eval pred_eval]; try match goal with |- None = Some _ -> _ => discriminate end.
+  - destruct (pp_ok PpMatchAccount); [|discriminate]. intros [= <-]. reflexivity.
+  - destruct (pp_ok PpNot); [|discriminate].
+    destruct (quick_eval p q) as [bq|]; [|discriminate]. intros [= <-].
     rewrite (IH bq eq_refl). reflexivity.
-  - destruct (quick_eval p q) as [[|]|]; try discriminate.
+  - destruct (pp_ok PpAnd); [|discriminate].
+    destruct (quick_eval p q) as [[|]|]; try discriminate.
     + intros H. rewrite (IHq true eq_refl). cbn [bind]. apply IHr. exact H.
     + intros [= <-]. rewrite (IHq false eq_refl). reflexivity.
-  - destruct (quick_eval p q) as [[|]|]; try discriminate.
+  - destruct (pp_ok PpOr); [|discriminate].
+    destruct (quick_eval p q) as [[|]|]; try discriminate.
     + intros [= <-]. rewrite (IHq true eq_refl). reflexivity.
     + intros H. rewrite (IHq false eq_refl). cbn [bind]. apply IHr. exact H.
+  - destruct (pp_ok PpValue); [|discriminate]. intros [= <-]. reflexivity.
+  - destruct (pp_ok PpEq); [|discriminate].
+    destruct (quick_eval p q) as [bq|]; [|discriminate].
+    destruct (quick_eval p r) as [br|]; [|discriminate]. intros [= <-].
+    rewrite (IHq bq eq_refl), (IHr br eq_refl). reflexivity.
+  - destruct (pp_ok PpQuery); [|discriminate].
+    destruct (quick_eval p c) as [[|]|]; try discriminate.
+    + intros H. rewrite (IHc true eq_refl). cbn [bind]. apply IHq. exact H.
+    + intros H. rewrite (IHc false eq_refl). cbn [bind]. apply IHr. exact H.
 Qed.
 
 (* and it looks at nothing but the account name: memoising by name is transparent *)
 Lemma quick_eval_acct_only p p' : p_acct p = p_acct p' -> forall e, quick_eval p e = quick_eval p' e.
 Proof.
-  intros Ha. induction e as [s | s | a | a | q IH | q IHq r IHr | q IHq r IHr]; cbn [quick_eval];
-    try reflexivity.
+  intros Ha. induction e as [s | s | a | a | q IH | q IHq r IHr | q IHq r IHr | c | q IHq r IHr | c IHc q IHq r IHr];
+    cbn [quick_eval]; try match goal with |- None = None => reflexivity end.
   - rewrite Ha. reflexivity.
   - rewrite IH. reflexivity.
   - rewrite IHq, IHr. reflexivity.
   - rewrite IHq, IHr. reflexivity.
+  - reflexivity.
+  - rewrite IHq, IHr. reflexivity.
+  - rewrite IHc, IHq, IHr. reflexivity.
+Qed.
+
+Local Transparent pp_ok.
+
+(* the source has the seven cases in the transcribed form (Gen/PostPred.v, regenerated on every run) *)
+Lemma post_pred_cases_transcribed :
+  (forall o, src_post_pred o = PpAsTranscribed) /\ src_post_pred_no_other_case = true /\ src_post_pred_frame = true.
+Proof. split; [intros []; reflexivity | split; reflexivity]. Qed.
+
+Lemma pp_ok_all : forall o, pp_ok o = true.
+Proof. intros []; reflexivity. Qed.
+
+(* on a predicate built from account matches and constants by ! & | == ?: the quick matcher always
+   answers - REQUIRES every one of the seven cases to be in the source *)
+Lemma quick_eval_total_on_acct_only p : forall e, acct_only e = true -> exists b, quick_eval p e = Some b.
+Proof.
+  induction e as [s | s | a | a | q IH | q IHq r IHr | q IHq r IHr | c | q IHq r IHr | c IHc q IHq r IHr];
+    cbn [acct_only quick_eval]; intros H; try discriminate; rewrite ?pp_ok_all.
+  - eexists; reflexivity.
+  - destruct (IH H) as [b ->]. eexists; reflexivity.
+  - apply andb_prop in H as [H1 H2]. destruct (IHq H1) as [[|] ->]; [apply IHr; exact H2 | eexists; reflexivity].
+  - apply andb_prop in H as [H1 H2]. destruct (IHq H1) as [[|] ->]; [eexists; reflexivity | apply IHr; exact H2].
+  - eexists; reflexivity.
+  - apply andb_prop in H as [H1 H2]. destruct (IHq H1) as [bq ->]. destruct (IHr H2) as [br ->]. eexists; reflexivity.
+  - apply andb_prop in H as [H12 H3]. apply andb_prop in H12 as [H1 H2].
+    destruct (IHc H1) as [[|] ->]; [apply IHq; exact H2 | apply IHr; exact H3].
+Qed.
+
+(* ... and its answer is the value of the full predicate, for every payee and every amount *)
+Lemma acct_only_full_value payee p e :
+  acct_only e = true -> exists b, quick_eval p e = Some b /\ pred_eval payee p e = Ok b.
+Proof.
+  intros H. destruct (quick_eval_total_on_acct_only p e H) as [b Hb].
+  exists b. split; [exact Hb | apply quick_eval_sound; exact Hb].
+Qed.
+
+(* a payee match or an amount comparison at the top makes the quick matcher decline *)
+Lemma quick_eval_declines_atoms p e :
+  match e with PPayee _ | PAmtLt _ | PAmtGt _ => quick_eval p e = None | _ => True end.
+Proof. destruct e; exact I || reflexivity. Qed.
+
+(* the new operators of the full predicate *)
+Lemma pred_eval_const payee p b : pred_eval payee p (PConst b) = Ok b.
+Proof. reflexivity. Qed.
+
+Lemma pred_eval_eq payee p q r a b :
+  pred_eval payee p q = Ok a -> pred_eval payee p r = Ok b ->
+  pred_eval payee p (PEq q r) = Ok (Bool.eqb a b).
+Proof. intros Hq Hr. cbn [pred_eval]. rewrite Hq, Hr. reflexivity. Qed.
+
+Lemma pred_eval_eq_error_left payee p q r e :
+  pred_eval payee p q = Err e -> pred_eval payee p (PEq q r) = Err e.
+Proof. intros Hq. cbn [pred_eval]. rewrite Hq. reflexivity. Qed.
+
+Lemma pred_eval_query payee p c q r b :
+  pred_eval payee p c = Ok b ->
+  pred_eval payee p (PQuery c q r) = pred_eval payee p (if b then q else r).
+Proof. intros Hc. cbn [pred_eval]. rewrite Hc. cbn [bind]. destruct b; reflexivity. Qed.
+
+(* == on predicates is "not exclusive or"; c ? q : r is (c & q) | (!c & r) *)
+Lemma pred_eval_eq_as_connectives payee p q r a b :
+  pred_eval payee p q = Ok a -> pred_eval payee p r = Ok b ->
+  pred_eval payee p (PEq q r) = pred_eval payee p (POr (PAnd q r) (PAnd (PNot q) (PNot r))).
+Proof.
+  intros Hq Hr. cbn [pred_eval]. rewrite Hq, Hr. cbn [bind]. destruct a, b; cbn [bind negb]; rewrite ?Hr; reflexivity.
 Qed.
 
 (* every memo entry is the value of the full predicate on every posting to that account *)
@@ -1097,4 +1181,46 @@ Theorem account_in_force : account_stmt_in_force.
 Proof.
   unfold account_stmt_in_force. cbv delta [src_extend_realias]. cbv iota.
   first [ exact (journal_extension_line_accounts eq_refl) | exact (realias_witness eq_refl) ].
+Qed.
+
+(* ------------------------------------------------------------ constant, == and ?: predicates in a rule *)
+
+(* `= expr true` fires on every posting of the user's; `= expr false` on none *)
+Lemma candidates_const r payee b ps :
+  r_pred r = PConst b -> candidates r payee ps = if b then filter not_generated ps else [].
+Proof.
+  intros Hp. unfold candidates. generalize (filter not_generated ps) as l.
+  induction l as [|x l IH]; [destruct b; reflexivity|].
+  cbn [filter]. unfold matchesb at 1. rewrite Hp. cbn [pred_eval].
+  destruct b; rewrite IH; reflexivity.
+Qed.
+
+(* the postings a rule with `c ? q : r` fires on are those of q where c holds and those of r elsewhere,
+   whenever c is decided without error *)
+Lemma matchesb_query r payee x c q s b :
+  r_pred r = PQuery c q s -> pred_eval payee (x_post x) c = Ok b ->
+  matchesb r payee x = matchesb (mkRule (if b then q else s) (r_lines r)) payee x.
+Proof.
+  intros Hp Hc. unfold matchesb. rewrite Hp. cbn [r_pred].
+  rewrite (pred_eval_query _ _ _ _ _ _ Hc). reflexivity.
+Qed.
+
+Lemma matchesb_eq r payee x q s a b :
+  r_pred r = PEq q s -> pred_eval payee (x_post x) q = Ok a -> pred_eval payee (x_post x) s = Ok b ->
+  matchesb r payee x = Bool.eqb a b.
+Proof.
+  intros Hp Hq Hs. unfold matchesb. rewrite Hp. rewrite (pred_eval_eq _ _ _ _ _ _ Hq Hs).
+  destruct (Bool.eqb a b); reflexivity.
+Qed.
+
+(* a rule whose predicate looks at the account only fires on a posting or not by its account name alone:
+   two postings to the same account are both matched or both passed over, whatever payee and amounts *)
+Lemma acct_only_same_account r payee payee' x y :
+  acct_only (r_pred r) = true -> p_acct (x_post x) = p_acct (x_post y) ->
+  matchesb r payee x = matchesb r payee' y.
+Proof.
+  intros Ha He. unfold matchesb.
+  destruct (acct_only_full_value payee (x_post x) _ Ha) as [b [Hq ->]].
+  destruct (acct_only_full_value payee' (x_post y) _ Ha) as [b' [Hq' ->]].
+  rewrite (quick_eval_acct_only _ _ He) in Hq. rewrite Hq in Hq'. injection Hq' as <-. reflexivity.
 Qed.
